@@ -141,6 +141,36 @@ pub fn secp4_program(rng: &mut Rng) -> (T, T) {
     (prog, T::nil())
 }
 
+/// GC fires because of *pair* garbage (a GC-candidate operator with ≥ 130 operands) while the heap is
+/// tiny and the atom table is longer than the heap (substr aliases of a short heap atom add table
+/// entries without heap bytes): checkpoint bookkeeping that confuses the two vectors shows up here
+fn alias_heavy_program(rng: &mut Rng) -> (T, T) {
+    let env = T::Atom(match rng.below(4) {
+        0 => vec![0xff],
+        1 => vec![0x80],
+        2 => vec![0x00, 0x01],
+        _ => vec![0xff, 0x7f, 0x01],
+    });
+    let m = 130 + rng.below(80) as usize;
+    let op = *rng.pick(&[11u8, 16, 17, 24, 25, 26, 33, 34]);
+    let args: Vec<T> = (0..m).map(|_| if rng.chance(3, 4) { int(1) } else { quote(int(rng.below(3) as i128)) }).collect();
+    let mut big = call(op, args);
+    if rng.chance(1, 3) {
+        big = call(2, vec![quote(big), int(1)]);
+    }
+    let mut prog = quote(atom(&[]));
+    for _ in 0..rng.below(5) + 1 {
+        let alias = match rng.below(3) {
+            0 => call(12, vec![int(1), quote(atom(&[])), quote(int(1))]),
+            1 => call(12, vec![int(1), quote(atom(&[]))]),
+            _ => call(12, vec![int(1), quote(int(1))]),
+        };
+        prog = call(4, vec![alias, prog]);
+    }
+    let prog = if rng.chance(1, 2) { call(4, vec![big, prog]) } else { call(4, vec![prog, call(4, vec![big, quote(atom(&[]))])]) };
+    (prog, env)
+}
+
 /// programs that allocate ≥ 1 KiB of garbage inside GC-candidate operator calls
 fn garbage_program(rng: &mut Rng) -> (T, T) {
     let blen = 600 + rng.below(600) as usize;
@@ -168,7 +198,11 @@ pub fn oracle(name: &str, rng: &mut Rng, n: usize, tier: &str) -> OracleReport {
     let mut seen = std::collections::HashSet::new();
     for i in 0..n {
         #[allow(unused_mut)]
-        let (mut prog, env) = if name == "gc" && i % 2 == 0 {
+        let (mut prog, env) = if name == "gc" && i % 4 == 1 {
+            alias_heavy_program(rng)
+        } else if name == "budget" && i < progs::huge_cost_corpus().len() {
+            progs::huge_cost_corpus()[i].clone()
+        } else if name == "gc" && i % 2 == 0 {
             garbage_program(rng)
         } else if name == "repr" && i % 4 == 1 {
             bls_point_program(rng)
@@ -205,6 +239,11 @@ pub fn oracle(name: &str, rng: &mut Rng, n: usize, tier: &str) -> OracleReport {
         }
         match name {
             "budget" => {
+                // budget 0 means unlimited: identical to the largest budget
+                let m = run_full("chia", flags, u64::MAX, &prog, &env, "");
+                if m.res != base.res {
+                    rep.fail("budget_zero", format!("{} budget=0 -> {:?} but budget=u64::MAX -> {:?}", d(), base.res, m.res));
+                }
                 if let Ok((c, v)) = &base.res {
                     let exempt_possible = flags & NEW_COST_MODEL != 0;
                     let mut budgets = vec![*c, c + 1, u64::MAX, c.saturating_sub(1), 1];
